@@ -114,6 +114,7 @@ def setup_engine(world, reg, qual) -> tuple[Engine, State, dict]:
     st.heap = eng.fresh_heap("h0")
     st.assume(st.heap["alloc"] >= 0)
     st.heap["w_dict"] = z3.K(I, z3.BoolVal(False))
+    st.heap["mycalls"] = z3.K(Val, z3.IntVal(0))
     # parameters
     a = fnode.args
     args: dict[str, SV] = {}
@@ -150,8 +151,8 @@ def setup_engine(world, reg, qual) -> tuple[Engine, State, dict]:
             if n in eng.cellvars:
                 st.set_fld("cell:" + n, st.envref, v.t)
     if spec.check_guarantee:
-        for (name, fn) in reg.invariants:
-            st.assume(fn(HeapView(st.heap)))
+        for entry in reg.invariants:
+            st.assume(entry[1](HeapView(st.heap)))
     st.seg = dict(st.heap)
     return eng, st, args
 
@@ -186,15 +187,19 @@ def verify_function(world, reg, qual) -> dict:
             if o.kind in ("normal", "return"):
                 n_ret += 1
                 val = o.val if o.kind == "return" and o.val is not None else NONE_SV
+                spec.ghost_exit(eng, o.st, "return")
                 eng.segment_end(o.st, "exit")
                 F = Frame(eng, entry, o.st, args, result=val)
+                F.ghost = spec.ghost_outputs(eng, o.st)
                 for (name, f) in spec.ensures(F):
                     eng.oblige(o.st, "post", name, f)
                 check_frame(eng, spec, entry, o.st, "post")
             else:
                 n_exc += 1
+                spec.ghost_exit(eng, o.st, "raise")
                 eng.segment_end(o.st, "exit-raise")
                 F = Frame(eng, entry, o.st, args, exc=o.val)
+                F.ghost = spec.ghost_outputs(eng, o.st)
                 if not spec.may_raise:
                     eng.oblige(o.st, "exc", "never-raises", z3.BoolVal(False))
                 for (name, f) in spec.raises(F):
@@ -216,6 +221,11 @@ def verify_function(world, reg, qual) -> dict:
         res["wall_s"] = time.time() - t0
         return res
     res["gen_s"] = time.time() - t0
+    only = os.environ.get("PYVC_ONLY")
+    if only:
+        obls = [o for o in obls if only in o.id and (os.environ.get("PYVC_PATH") is None or os.environ["PYVC_PATH"] == o.path)]
+        if os.environ.get("PYVC_FIRST"):
+            obls = obls[:int(os.environ["PYVC_FIRST"])]
     res["obligations"] = discharge_all(obls, eng.axioms)
     res["wall_s"] = time.time() - t0
     return res
@@ -226,12 +236,19 @@ def check_frame(eng, spec, entry: State, st: State, kind):
     if spec.modifies == "rely" or spec.suspends:
         return
     eqs, names = [], []
+    x = z3.Const("x!fr", I)
     for c in eng.comps:
-        if c == "alloc" or c in spec.modifies or c.startswith("fld:cell:") or c == "w_dict":
+        if c == "alloc" or c in spec.modifies or c.startswith("fld:cell:") or c in ("w_dict", "mycalls"):
             continue
         if st.heap[c] is entry.heap[c] or st.heap[c].eq(entry.heap[c]):
             continue
-        eqs.append(st.heap[c] == entry.heap[c])
+        if not z3.is_array(st.heap[c]):
+            eqs.append(st.heap[c] == entry.heap[c])
+            names.append(c)
+            continue
+        # objects that existed at entry are untouched (writes to objects allocated by this call are not effects)
+        eqs.append(z3.ForAll([x], z3.Implies(z3.And(0 <= x, x < entry.heap["alloc"]),
+                                             z3.Select(st.heap[c], x) == z3.Select(entry.heap[c], x))))
         names.append(c)
     if eqs:
         eng.oblige(st, "frame", "only-declared-components-written", z3.And(*eqs), kind)
@@ -330,6 +347,11 @@ def discharge(ob: Obl, ctx, ax, hyps, goal, short=False) -> dict:
         if r == z3.unsat:
             out["model"] = "hypotheses are contradictory (vacuous contract)"
     out["seconds"] = round(time.time() - t0, 4)
+    if out["status"] != "discharged" and os.environ.get("PYVC_DUMP"):
+        import re
+        fn = os.path.join(os.environ["PYVC_DUMP"], re.sub(r"[^A-Za-z0-9_.#:-]", "_", ob.id)[:150] + ".smt2")
+        with open(fn, "w") as f:
+            f.write(s.to_smt2())
     if out["status"] != "discharged" and ob.expect == "unsat":
         try:
             out["smt2_tail"] = s.to_smt2()[-1200:]
